@@ -20,7 +20,7 @@ type qcRec struct {
 	ID            string
 	Before, After string // uids
 	Seq           int64
-	IndexOK       bool   // the index already reflected the mutation inside the callback
+	IndexOK       bool // the index already reflected the mutation inside the callback
 	IndexNote     string
 	EventsBad     []string
 }
@@ -76,7 +76,7 @@ func c14History(c *core.Ctx, env *idxEnv, r *rand.Rand, h int) {
 		bat = bat[:60]
 	}
 	var pendingBefore map[string]interface{} // model before the mutation being indexed (mutations are flushed one by one)
-	multi := false                            // a multi-mutation transaction is being indexed: only the callback sequence is checked
+	multi := false                           // a multi-mutation transaction is being indexed: only the callback sequence is checked
 	env.qs.OnQueryChange(func(qc store.QueryChange) {
 		rec := qcRec{ID: qc.ID(), Before: valUID(qc.Before()), After: valUID(qc.After()), Seq: mon.Seq(), IndexOK: true}
 		if multi {
